@@ -60,6 +60,10 @@ def range2 (n m : Nat) : List (Nat × Nat) :=
 def range3 (n m l : Nat) : List (Nat × Nat × Nat) :=
   (List.range n).flatMap fun a => (List.range m).flatMap fun b => (List.range l).map fun c => (a, b, c)
 
+/-- `for a < n: for b < m: for c < l: for d < p:` -/
+def range4 (n m l p : Nat) : List (Nat × Nat × Nat × Nat) :=
+  (List.range n).flatMap fun a => (range3 m l p).map fun t => (a, t)
+
 /-- `has_batch() * size` -/
 def skipOf (s : Shape) (size : Nat) : Nat := if s.hasBatch then size else 0
 
@@ -211,8 +215,7 @@ structure MatIt where
   j : Nat
 
 def matIts (bs d1 d2 d3 : Nat) : List MatIt :=
-  (List.range bs).flatMap fun bn => (List.range d3).flatMap fun k =>
-    (List.range d1).flatMap fun i => (List.range d2).map fun j => ⟨bn, k, i, j⟩
+  (range3 bs d3 d1).flatMap fun s => (List.range d2).map fun j => ⟨s.1, s.2.1, s.2.2, j⟩
 
 structure MatDims where
   d1 : Nat
@@ -223,15 +226,18 @@ structure MatDims where
   skipB : Nat
 
 namespace MatDims
-def ya (D : MatDims) (t : MatIt) : Nat := t.bn * (D.d1 * D.d3) + (t.i + t.k * D.d1)
-def aa (D : MatDims) (t : MatIt) : Nat := t.bn * D.skipA + (t.i + t.j * D.d1)
-def ba (D : MatDims) (t : MatIt) : Nat := t.bn * D.skipB + (t.j + t.k * D.d2)
+/-- `dest[ii + kk*d1]` of batch `bn` (`dest += d1*d3` per batch) -/
+def ya (D : MatDims) (t : MatIt) : Nat := t.bn * (D.d3 * D.d1) + (t.k * D.d1 + t.i)
+/-- `src_a[ii + jj*d1]` -/
+def aa (D : MatDims) (t : MatIt) : Nat := t.bn * D.skipA + (t.j * D.d1 + t.i)
+/-- `src_b[jj + kk*d2]` -/
+def ba (D : MatDims) (t : MatIt) : Nat := t.bn * D.skipB + (t.k * D.d2 + t.j)
 def its (D : MatDims) : List MatIt := matIts D.bs D.d1 D.d2 D.d3
 end MatDims
 
 /-- matmul_fw_impl: `dest[n] = 0` for every cell of the batch, then `dest[ii + kk*d1] += src_a[ii + jj*d1] * src_b[jj + kk*d2]` -/
 def matmulFw [Add α] [Mul α] (zero : α) (D : MatDims) (a b : Buf α) (junk : α) : Buf α :=
-  fun n => if n < D.bs * (D.d1 * D.d3) then
+  fun n => if n < D.bs * (D.d3 * D.d1) then
       scatterAddAt D.its D.ya (fun t => a (D.aa t) * b (D.ba t)) zero n
     else junk
 
@@ -325,12 +331,13 @@ def wa (D : ConvDims) (t : ConvIt) : Nat :=
 /-- `(y_c * y_width + y_x) * y_height + y_y`, plus the batch shift -/
 def ya (D : ConvDims) (t : ConvIt) : Nat :=
   t.bn * D.yShift + ((t.yc * D.yw + t.yx) * D.yh + t.yy)
+/-- the four output loops `bn, y_c, y_x, y_y` -/
+def outer (D : ConvDims) : List (Nat × Nat × Nat × Nat) := range4 D.bs D.yc D.yw D.yh
+/-- the three window loops `x_c, w_x, w_y` of one output cell -/
+def inner (D : ConvDims) (s : Nat × Nat × Nat × Nat) : List ConvIt :=
+  (range3 D.xc D.ww D.wh).map fun r => ⟨s.1, s.2.1, s.2.2.1, s.2.2.2, r.1, r.2.1, r.2.2⟩
 /-- the seven nested loops, without the bounds test -/
-def allIts (D : ConvDims) : List ConvIt :=
-  (List.range D.bs).flatMap fun bn => (List.range D.yc).flatMap fun yc =>
-  (List.range D.yw).flatMap fun yx => (List.range D.yh).flatMap fun yy =>
-  (List.range D.xc).flatMap fun xc => (List.range D.ww).flatMap fun wx =>
-  (List.range D.wh).map fun wy => ⟨bn, yc, yx, yy, xc, wx, wy⟩
+def allIts (D : ConvDims) : List ConvIt := D.outer.flatMap D.inner
 /-- the iterations that pass the bounds test, in loop order -/
 def its (D : ConvDims) : List ConvIt := D.allIts.filter D.valid
 end ConvDims
